@@ -577,6 +577,9 @@ func (ci *crdIpam) AllocateInSubnetsAndIPRange(key string, nodeSubnet *net.IPNet
 				}
 				if err := ci.deleteFloatingIP(allocatedIPStrs[j]); err != nil {
 					glog.Errorf("failed to delete floatingIP %s: %v", allocatedIPStrs[j], err)
+					// the object stays in the store, keep the cache in step with it, the ip is released along with
+					// the other ips of the key later on
+					ci.syncCacheAfterCreate(allocatedFips[j])
 				}
 			}
 			return nil, err
